@@ -67,14 +67,15 @@ type Conn struct {
 	local  Addr
 	remote Addr
 
-	rdl      time.Time // read deadline (zero: none)
-	in       [][]byte  // fragments not yet read
-	inErr    error     // returned by Read once `in` is empty (io.EOF, read error)
-	closed   bool
-	nclose   int
-	blocked  int // goroutines currently parked in Read
-	nread    int // Read calls that have returned
-	nreadBeg int // Read calls entered
+	rdl         time.Time // read deadline (zero: none)
+	in          [][]byte  // fragments not yet read
+	inErr       error     // returned by Read once `in` is empty (io.EOF, read error)
+	errWithLast bool      // the Read that returns the last queued bytes returns inErr with them (as crypto/tls may)
+	closed      bool
+	nclose      int
+	blocked     int // goroutines currently parked in Read
+	nread       int // Read calls that have returned
+	nreadBeg    int // Read calls entered
 
 	nwrite    int
 	inWrite   int // transport Write calls in flight
@@ -123,6 +124,16 @@ func (c *Conn) Feed(b []byte) {
 	c.mu.Unlock()
 }
 
+// FeedLastWithErr queues b and makes the Read that returns its last byte also return err.
+func (c *Conn) FeedLastWithErr(b []byte, err error) {
+	c.mu.Lock()
+	c.in = append(c.in, append([]byte(nil), b...))
+	c.inErr = err
+	c.errWithLast = true
+	c.cond.Broadcast()
+	c.mu.Unlock()
+}
+
 // FeedErr makes Read return err once the queued fragments are consumed (io.EOF = peer closed).
 func (c *Conn) FeedErr(err error) {
 	c.mu.Lock()
@@ -162,6 +173,9 @@ func (c *Conn) Read(p []byte) (int, error) {
 		n = copy(p, c.in[0])
 		if n == len(c.in[0]) {
 			c.in = c.in[1:]
+			if len(c.in) == 0 && c.errWithLast && c.inErr != nil {
+				err = c.inErr
+			}
 		} else {
 			c.in[0] = c.in[0][n:]
 		}
